@@ -355,7 +355,74 @@ def squash_hcap(rng):
     return '{' + base + '}.{' + ','.join(frs) + '}'
 
 
+# cis/trans marks ('/' and '\') in fragments.  strip_bonding_descriptors files a mark under the index of the atom
+# written before it AND under the index of the atom expected after it; when the mark stands directly in front of a
+# bonding descriptor (or is the last token of the fragment) that second index names no written atom -- it is the
+# index pysmiles gives the first implicit hydrogen.  The head atom (the first hydrogen-bearing atom of the fragment)
+# is taken both from atoms that end up fully substituted in the chain (in-chain O / S, N with two links, quaternary
+# C / Si) and from atoms that still need hydrogens.
+EZ_HEADS_FULL = ['O', 'S', 'N(C)', 'C(C)(C)', 'C(F)(F)', '[Si](C)(C)', 'N(CC)', 'C(C)(F)', '[N+](C)(C)']
+EZ_HEADS_OPEN = ['C', 'N', 'CC', 'C(C)', 'OC', 'CO', '[NH2+]', 'CS']
+EZ_CORES = ['C=C', 'C=C', 'C(C)=C', 'C=C(C)', 'C(F)=C', 'C=C(Cl)', 'C=N']
+EZ_TAILS = ['', '', '', 'C', 'O', 'N(C)', 'CC', 'S']
+EZ_FIXED = ['{[#A][#B]}.{#A=C\\C=C/[$],#B=[$]/C=C/C}', '{[#A][#B]}.{#A=CC(/F)=[$],#B=[$]=C(\\F)C}',
+            '{[#A][#B]}.{#A=F/C=C/[$],#B=[$]O}', '{[#A]}.{#A=F/C=C/F}', '{[#A]}.{#A=C/C=C\\C}',
+            '{[#A][#B][#C]}.{#A=OC(/F)=[$],#B=[$]=C(\\F)/[$a],#C=[$a]C}',
+            '{[#T][#SV]([#T])[#SV][#T]}.{#SV=[>]S/C=C(/[<])[<],#T=[>]C[<]}',
+            '{[#T][#A]([#T])[#A][#T]}.{#A=[>]O/C=C(/[<])[<],#T=[>]C[<]}',
+            '{[#A][#B]}.{#A=C/C=C/[$],#B=[$]\\C=C\\O}', '{[#A][#B]}.{#A=[$]/C=C/Cl,#B=CO[$]}']
+EZ_SAMPLER = [{'s': '{#OV=[>]O/C=C/[<],#EO=[>]OCC[<]}', 'react': {'>': 0.5, '<': 0.5}},
+              {'s': '{#SV=[$]S/C=C/[$],#E=[$]CC[$]}', 'react': {'$': 1.0}},
+              {'s': '{#A=[>]C/C=C/[<],#B=[>]N(C)\\C=C/[<]}', 'react': {'>': 0.5, '<': 0.5}},
+              {'s': '{#A=[>]C(C)(C)/C=C/C[<],#B=[>]O/C=C\\[<]}', 'react': {'>': 0.5, '<': 0.5}}]
+
+
+def ez_unit(rng, left, right):
+    """one fragment text: <left descriptor> head mark core mark tail <right descriptor>"""
+    head = rng.choice(EZ_HEADS_FULL if rng.random() < 0.65 else EZ_HEADS_OPEN)
+    m1, m2 = rng.choice(['/', '\\']), rng.choice(['/', '\\'])
+    core, tail = rng.choice(EZ_CORES), rng.choice(EZ_TAILS)
+    r = rng.random()
+    if r < 0.15:                   # the second mark in a branch, in front of a descriptor of its own
+        return '%s%s%s%s(%s%s)%s' % (left, head, m1, core.replace('=C(C)', '=C').replace('=C(Cl)', '=C'), m2, right, right)
+    if r < 0.22 and tail:          # no second mark at all
+        return '%s%s%s%s%s%s' % (left, head, m1, core, tail, right)
+    return '%s%s%s%s%s%s%s' % (left, head, m1, core, m2, tail, right)
+
+
+def ez_slash(rng):
+    if rng.random() < 0.2:
+        return rng.choice(EZ_FIXED)
+    kind = rng.choice(['><', '$', '$'])
+    left, right = ('[>]', '[<]') if kind == '><' else ('[$]', '[$]')
+    n = rng.randint(1, 3)
+    frs = ['#V=' + ez_unit(rng, left, right)]
+    body = '[#V]' if n == 1 else '[#V]|%d' % n
+    if rng.random() < 0.3:         # a second, plain or marked, unit in the chain
+        frs.append('#W=' + (ez_unit(rng, left, right) if rng.random() < 0.5 else left + rng.choice(['OCC', 'CC', 'C(=O)N']) + right))
+        body = body + '[#W]' if rng.random() < 0.5 else '[#W]' + body
+    r = rng.random()
+    if r < 0.6:                    # both ends capped
+        cap = rng.choice(['C', 'O', 'CC', 'N', '[H]', 'F'])
+        if kind == '><':
+            frs.append('#T=[>]%s[<]' % cap if cap not in ('[H]', 'F') else '#T=[>][<]%s' % cap)
+        else:
+            frs.append('#T=[$]%s' % cap)
+        body = '[#T]' + body + '[#T]'
+    elif r < 0.8:                  # one end capped
+        cap = rng.choice(['C', 'O', 'CC'])
+        frs.append(('#T=[<]%s' % cap) if kind == '><' else ('#T=[$]%s' % cap))
+        body = body + '[#T]'
+    return '{' + body + '}.{' + ','.join(frs) + '}'
+
+
 def gen_case(rng):
+    if rng.random() < 0.09:
+        if rng.random() < 0.2:
+            c = dict(rng.choice(EZ_SAMPLER))
+            c.update({'kind': 'sample', 'cls': 'ez-slash-sampler', 'seed': rng.randint(0, 10 ** 6), 'w': rng.choice([80, 150, 300])})
+            return c
+        return {'kind': 'resolve', 'cls': 'ez-slash', 's': ez_slash(rng), 'legacy': True}
     if rng.random() < 0.07:
         return {'kind': 'resolve', 'cls': 'squash-hcap', 's': squash_hcap(rng), 'legacy': True}
     if rng.random() < 0.08:
@@ -413,7 +480,8 @@ def gen_case(rng):
 FRAG_TEXTS = ['CC', 'C[H]', '[H]C([H])([H])C', '[H]', 'H', 'O', '[OH2]', 'C[NH3+]', 'C(=O)[O-]', 'c1ccccc1', 'c1cc[nH]c1',
               '[$]CC[$]', '[>]CC(C)[<]', 'C[H;w=0.5]', 'C([H;x=a])O', '[C;0][$]', '[C;w=0.25]C[$]=', '[H][H]', '[2H]C',
               '[H]O[H]', 'C[H:1]', '[H+]', 'C#C[H]', '[H]C=O', '[$][H]', 'N[H;q=1]', '[OH;0.5][C;0.1][$]C[$]O', '[CH3][H]',
-              'C1CC1[H]', '[$]c1ccccc1[H;w=0]', 'F/C=C/F', '[Na+]', 'C[N+](C)(C)[H]', '[H]N([H])C(=O)C']
+              'C1CC1[H]', '[$]c1ccccc1[H;w=0]', 'F/C=C/F', '[>]O/C=C/[<]', 'C\\C=C/[$]', '[>]S/C=C(/[<])[<]', '[$]N(C)/C=C\\[$]',
+              '[H]/C=C/F', 'OC=C/', 'C/C=C/[$]C', '[Na+]', 'C[N+](C)(C)[H]', '[H]N([H])C(=O)C']
 
 
 def rand_helper_graph(rng, for_fill=True):
@@ -696,6 +764,11 @@ class C09(common.Prop):
         out += [{'kind': 'resolve', 'cls': 'corpus', 's': s, 'legacy': True} for s in ZERO_WEIGHT[:5]]
         out += [{'kind': 'resolve', 'cls': 'corpus', 's': s, 'legacy': True} for s in COLON_KEKULE[:8]]
         out.append(dict(COLON_SAMPLER[0], kind='sample', cls='corpus', seed=1, w=60))
+        # cis/trans marks: in front of an atom, in front of a descriptor, in a branch; head atom open / fully substituted
+        out += [{'kind': 'resolve', 'cls': 'corpus', 's': s, 'legacy': True} for s in EZ_FIXED[:3] +
+                ['{[#T][#V]|2[#T]}.{#V=[$]S\\C=C/[$],#T=[$]C}', '{[#V]|3}.{#V=[>]N(C)/C=C/[<]}',
+                 '{[#T][#V][#W][#T]}.{#V=[>]C(C)(C)/C=C/[<],#W=[>]O/C=C/C[<],#T=[>]C[<]}']]
+        out.append(dict(EZ_SAMPLER[0], kind='sample', cls='corpus', seed=7, w=300))
         # histories: a disturbing call first, then the judged call in the same process
         out.append({'kind': 'resolve', 'cls': 'corpus+history', 's': '{[#A][#B]}.{#A=[$]CC[$],#B=[$]OC}', 'legacy': True,
                     'prelude': ['mass-plain']})
